@@ -307,9 +307,10 @@ Proof.
               forall mg n0 s0, wire_marker ndesc links mg (f s) = Ok (n0, s0) -> Good s s0 (WCons n0 WNil)).
   { intros f Hf mg n0 s0 E0. destruct (Hf s) as [Hn Ha].
     eapply Good_ext_l; [exact Hn|exact Ha|]. eapply wire_marker_good; [apply Q; exact Hf|exact E0]. }
-  destruct ((id / 1000 =? 201)%N || (id / 1000 =? 202)%N || (id / 1000 =? 203)%N || (id / 1000 =? 206)%N
+  destruct ((id / 1000 =? 201)%N || (id / 1000 =? 202)%N || (id / 1000 =? 206)%N
             || (id / 1000 =? 207)%N || (id / 1000 =? 208)%N).
   { injection E as <- <-. apply Good_novalue; reflexivity. }
+  destruct (id / 1000 =? 203)%N; [injection E as <- <-; apply Good_novalue; reflexivity|].
   destruct (id / 1000 =? 204)%N.
   { destruct (Z.of_N (id mod 1000) =? 0)%Z.
     - destruct (x_assoc s); [discriminate|]. injection E as <- <-. apply Good_novalue; reflexivity.
@@ -417,13 +418,21 @@ Proof.
       eapply Good_ext_l; [exact Hn0|exact Ha0|].
       change (WCons (WNoValue (desc_id d)) new) with (wnodes_app (WCons (WNoValue (desc_id d)) WNil) new).
       eapply Good_trans; [apply Good_novalue; reflexivity|exact G].
-    + dbind E as [n s1] into E1.
-      pose proof (IHd _ _ _ HI0 E1) as G1.
-      destruct (IHds _ _ _ _ (Good_Inv _ _ _ HI0 G1) E) as (new & -> & G).
-      exists (WCons n new). rewrite wnodes_app_assoc. split; [reflexivity|].
-      eapply Good_ext_l; [exact Hn0|exact Ha0|].
-      change (WCons n new) with (wnodes_app (WCons n WNil) new).
-      eapply Good_trans; eassumption.
+    + destruct (x_def s0 && is_plain_elem d).
+      * dbind E as [i s1] into Ev.
+        pose proof (Good_value _ _ _ HI0 Ev) as G1.
+        destruct (IHds _ _ _ _ (Good_Inv _ _ _ HI0 G1) E) as (new & -> & G).
+        exists (WCons (WValue i) new). rewrite wnodes_app_assoc. split; [reflexivity|].
+        eapply Good_ext_l; [exact Hn0|exact Ha0|].
+        change (WCons (WValue i) new) with (wnodes_app (WCons (WValue i) WNil) new).
+        eapply Good_trans; eassumption.
+      * dbind E as [n s1] into E1.
+        pose proof (IHd _ _ _ HI0 E1) as G1.
+        destruct (IHds _ _ _ _ (Good_Inv _ _ _ HI0 G1) E) as (new & -> & G).
+        exists (WCons n new). rewrite wnodes_app_assoc. split; [reflexivity|].
+        eapply Good_ext_l; [exact Hn0|exact Ha0|].
+        change (WCons n new) with (wnodes_app (WCons n WNil) new).
+        eapply Good_trans; eassumption.
 Qed.
 
 (* C09: the wired tree holds every flat index 0..n-1 exactly once, and flattening
